@@ -211,6 +211,8 @@ def dispatch (c : Ctx) (r : Row) (options : BitVec 32) (o0 o1 o2 o3 : Op) : Exce
   | 0x72 => vexRvm opcode                                                          -- VexRvm
   | 0x75 => vexRvm (opcode ||| lx01)                                               -- VexRvm_Lx
   | 0x76 => vexRvm ((opcode ||| (b2w o0.isMask <<< 12)) ||| lx01)                  -- VexRvm_Lx_KEvex
+  | 0x73 => vexRvm (opcode ||| (if o0.rmSize == 8 && o0.isGp || o2.rmSize == 8 then kW else 0#32))   -- VexRvm_Wx (`o0.is_gp64() | o2.x86_rm_size() == 8`)
+  | 0x7b => vexRvmi (opcode ||| (b2w o0.isMask <<< 12))                            -- VexRvmi_KEvex
   | 0x7a => vexRvmi opcode                                                         -- VexRvmi
   | 0x7c => vexRvmi (opcode ||| lx01)                                              -- VexRvmi_Lx
   | 0x62 =>                                                                        -- VexMr_Lx
@@ -503,6 +505,11 @@ def emitInst (mode64 : Bool) (base : Option (BitVec 64)) (off : Nat) (r : Row) (
     else Except.ok [])
   let pfx := lock ++ rep
   let c := r.ctx mode64 base (off + pfx.length) k
+  -- `EmitVexEvexR` refuses {er}/{sae} on vcvtsi2sd / vcvtusi2sd with a 32-bit integer source and on vcmpsd / vcmpss whose destination is
+  -- not a mask register (InvalidEROrSAE): the same answer as an instruction without the capability
+  let isGp32 (x : Op) : Bool := match x with | .reg 5 _ => true | _ => false
+  let erSaeBan := ((r.id == 882 || r.id == 915) && isGp32 (o 2)) || ((r.id == 832 || r.id == 834) && !(o 0).isMask)
+  let c := if erSaeBan then { c with hasER := false, hasSAE := false } else c
   let body ← dispatch c r options (o 0) (o 1) (o 2) (o 3)
   pure (pfx ++ body)
 
